@@ -427,7 +427,7 @@ fn run_standard(cx: &mut Ctx, args: &Args) {
         let toks = ["/", "\\", "C:", "c|", "..", "%2E.", ".", "x", "?", "#"];
         let pres = ["file://", "file:\\\\", "fIle:/\\h", "file://localhost", "file:///", "file://C:", "//", "\\\\", "/\\h.x", "///", "//C|", "\\/localhost/",
                     "file:/", "file:", "/", ""];
-        let fbases = ["file:///tmp/x", "file://h/C:/d/e", "file:///C:/a/b", "file://h.x/a/b/c?q#f"];
+        let fbases = ["file:///tmp/x", "file://h/d/e", "file:///C:/a/b", "file://h.x/a/b/c?q#f"];
         let fparsed: Vec<Url> = fbases.iter().map(|s| Url::parse(s).expect("directed file base")).collect();
         let depth = if args.tier == "thorough" { 3 } else { 2 };
         let mut seqs: Vec<String> = vec![String::new()];
